@@ -477,6 +477,11 @@ impl<'a> IExec<'a> {
                     _ => &["C04", "C10", "C05"],
                 },
                 "insufficient-custody" | "unknown-token" | "undecodable-recipient" | "token-refuses-this-receiver" | "credit-would-overflow" => &["C04", "C05"],
+                // a message that takes effect a second time credits its amount twice (C05) or deploys twice (C11)
+                "already-executed" => match kind_tag {
+                    "C11" => &["C04", "C11"],
+                    _ => &["C04", "C05"],
+                },
                 _ => &["C04"],
             };
             match ctx.expect(res.out.is_err(), tags, &cls, || format!("delivery that must be refused ({}) was executed", label)) {
